@@ -23,9 +23,9 @@ ASSUMPTIONS = [
     "stop requests: a tracker raises StopIteration or FinishedSimulation at its j-th call (j symbolic via enumeration 1..3)",
 ]
 STUBS = H_STUBS = ["float() identity on symbolic reals in pde.solvers.*, pde.trackers.*, pde.backends.numba._solvers", "nb.typeof -> None", "adaptive cases: OnlineStatistics.add (step-size diagnostics) counts only; in the 'any-adjusted-step' cases _make_dt_adjuster is a non-deterministic stub returning any step in [0.01*dt, 4*dt] (its documented bracket; covers one rejection followed by a shrink), at most `attempts` adjustments per run; the rate is constant so the real error estimate is exactly 0 and every step is accepted"]
-OUTSIDE = ["adaptive steppers: rejected steps as such (the error estimate is 0 in the harness; their effect on the step size is covered by the adjuster stub), stop requests during adaptive runs, more than 2 trackers", "more than K steps per run", "MPI", "RealtimeInterrupts"]
+OUTSIDE = ["adaptive steppers: rejected steps as such (the error estimate is 0 in the harness; their effect on the step size is covered by the adjuster stub), more than 2 trackers", "more than K steps per run", "MPI", "RealtimeInterrupts"]
 BOUNDS = {"max_paths": 8000, "tmax": 900.0, "query_timeout_ms": 10000}
-CASE_TIMEOUT = 1700
+CASE_TIMEOUT = 3600
 EXPLANATION = "all paths of the real controller/tracker/interrupt code up to K steps; per path the call records of every tracker are compared with the schedule for all dt, ranges and intervals"
 
 
@@ -62,9 +62,14 @@ def cases(tier, seed):
         for solver in ("euler", "runge-kutta"):
             out.append({"name": f"adaptive:{backend}:{solver}:real-adjuster:2const", "scenario": "scenario_adaptive", "cfg": {"backend": backend, "solver": solver, "trackers": [{}, {}], "periods": 2 if q else 3, "dt0": 1 if q else "sym"}})
             out.append({"name": f"adaptive:{backend}:{solver}:real-adjuster:1const:dt0=sym", "scenario": "scenario_adaptive", "cfg": {"backend": backend, "solver": solver, "trackers": [{}], "periods": 3 if q else 4, "dt0": "sym"}})
+    for backend in ("numpy", "numba"):
+        out.append({"name": f"adaptive:{backend}:euler:stop-at-call-2:2const", "scenario": "scenario_adaptive", "cfg": {"backend": backend, "solver": "euler", "trackers": [{}, {}], "periods": 2, "dt0": 1, "stop": {"tracker": 0, "at_call": 2, "exc": "StopIteration", "reason": None}}})
     out.append({"name": "adaptive:numpy:euler:any-adjusted-step:2const", "scenario": "scenario_adaptive", "cfg": {"backend": "numpy", "solver": "euler", "trackers": [{"lo": 0.5, "hi": 2}, {}] if q else [{}, {}], "periods": 1 if q else 2, "adjuster": "stub", "attempts": 4 if q else 5}})
     out.append({"name": "adaptive:numpy:runge-kutta:any-adjusted-step:1const:tstart", "scenario": "scenario_adaptive", "cfg": {"backend": "numpy", "solver": "runge-kutta", "trackers": [{"lo": 0.5, "hi": 2}] if q else [{}], "periods": 2 if q else 3, "adjuster": "stub", "attempts": 4 if q else 5, "t_start": "sym"}})
     if not q:
+        for c_ in out:
+            if c_["name"].startswith("adaptive:"):
+                c_["bounds"] = {"tmax": 3000.0, "max_paths": 30000}
         out.append(_case("numba:2const>=dt:dt=1:whole:K=4", backend="numba", K=4, range="whole", dt=1, a=0.5, trackers=[ge1, ge1]))
         out.append(_case("numpy:3const:dt=1:any:K=3", backend="numpy", K=3, range="any", dt=1, a=0.5, trackers=[ge1, any_, ge1]))
         out.append(_case("numpy:log+const:dt=1:any:K=4", backend="numpy", K=4, range="any", dt=1, a=0.5, trackers=[{"kind": "log", "factor": "sym"}, ge1]))
@@ -199,7 +204,8 @@ def scenario_adaptive(env, cfg):
         init = pde.ScalarField(grid, data, dtype=object if env.sym else float)
         Recorder = H.make_tracker_class()
         ti = mods["pde.trackers.interrupts"]
-        trackers = [Recorder(ti.ConstantInterrupts(D), None) for D in Ds]
+        stop = cfg.get("stop")
+        trackers = [Recorder(ti.ConstantInterrupts(D), None, stop=stop if (stop and stop["tracker"] == i) else None) for i, D in enumerate(Ds)]
         smod, scls = H.SOLVERS[cfg.get("solver", "euler")]
         solver = getattr(importlib.import_module(smod), scls)(eq, backend=cfg.get("backend", "numpy"), adaptive=True)
         ctrl = Controller(solver, t_range=(ts, t_end), tracker=trackers)
@@ -215,6 +221,19 @@ def scenario_adaptive(env, cfg):
     # step estimate (<= 4 * the last step <= 4 * the smallest interval, or the initial dt)
     tol = 1e-5 * (dt0 + O.total(Ds))
     nsched = cfg.get("periods", 3) * 2 + 1
+    if cfg.get("stop"):
+        # a stop request during an adaptive run: the run ends at the requesting call's time, with everything due then served
+        st = trackers[stop["tracker"]]
+        stopped = len(st.records) >= stop["at_call"]
+        env.observe("stopped", stopped)
+        if stopped:
+            t_stop = st.records[stop["at_call"] - 1][0]
+            env.close("adaptive:stop:t_final=stop-time", t_final, t_stop, scale=64)
+            env.close("adaptive:stop:final-state=state-at-stop-time", final.data[0], st.records[stop["at_call"] - 1][2][0], scale=64)
+            env.prove("adaptive:stop:reason-reported", ctrl.info.get("stop_reason") == "Tracker raised StopIteration")
+            env.prove("adaptive:stop:no-call-after-the-stop", O.land(*[rec[0] <= t_stop for tr in trackers for rec in tr.records]))
+        else:
+            env.prove("adaptive:no-stop:reached-final-time", ctrl.info.get("stop_reason") == "Reached final time")
     for i, (tr, D) in enumerate(zip(trackers, Ds)):
         times = [rec[0] for rec in tr.records]
         env.observe(f"times{i}", times)
@@ -230,7 +249,8 @@ def scenario_adaptive(env, cfg):
         for j, t in enumerate(times):
             env.prove(f"adaptive:tracker{i}:call-is-at-a-scheduled-time-or-final:{j}", O.lor(*[abs(t - sk) <= tol for sk in sched], abs(t - t_final) <= 0))
         env.prove(f"adaptive:tracker{i}:finalized-exactly-once", tr.finalized == 1)
-    env.prove("adaptive:t_final-reaches-t_end", O.land(t_final >= t_end - tol, t_final <= t_end + tol))
+    if not (cfg.get("stop") and stopped):
+        env.prove("adaptive:t_final-reaches-t_end", O.land(t_final >= t_end - tol, t_final <= t_end + tol))
     env.close("adaptive:final-state=u0+c*(t_final-t_start)", final.data[0], u0 + cval * (t_final - ts), scale=64)
     env.reach()
 
